@@ -1811,7 +1811,7 @@ class Tag(PageElement):
             self.name,
             self.namespace,
             self.prefix,
-            self.attrs,
+            None,
             is_xml=self._is_xml,
             sourceline=self.sourceline,
             sourcepos=self.sourcepos,
